@@ -546,6 +546,15 @@ func (e *Engine) bindClauses(bc *BoundContract) error {
 			bc.Recovers = true
 		case "panics":
 			bc.MayPanic = true
+		case "nopanic":
+			// "nopanic F G ...": in this unit, calls of the may-panic callees F, G ... are assumed not to panic
+			// (e.g. "the stream holds enough data"); listed as an assumption of the unit
+			if bc.NoPanic == nil {
+				bc.NoPanic = map[string]bool{}
+			}
+			for _, f := range strings.Fields(strings.ReplaceAll(cl.Text, ",", " ")) {
+				bc.NoPanic[f] = true
+			}
 		case "partial":
 			bc.Partial = true
 		case "trusted":
